@@ -10,5 +10,5 @@ shutil.copy(f"{src}/demo_{k}.py", f"{dst}/demo.py")
 json.dump({"property": prop, "breaks": prop, "needs_to_manifest": needs,
            "confirmed": "applied in a scratch worktree of /repo HEAD: pinned 85 tests pass, demo.py FAIL with the patch and PASS without (selftest/try_patch.py --tests --demo)",
            "ran": f"selftest/try_patch.py seeded/{prop}/{name}/patch.diff {prop} --seeds 1,2", "detected_by": detected,
-           "origin": "independent sub-agent given only the property text and a scratch worktree"}, open(f"{dst}/meta.json", "w"), indent=1)
+           "origin": os.environ.get("SEED_ORIGIN", "independent sub-agent given only the property text and a scratch worktree")}, open(f"{dst}/meta.json", "w"), indent=1)
 print("kept", dst)
